@@ -19,7 +19,7 @@ def expectedC02 : List (String × String) := [
   ("file:io/pickle.py", "40e23d34076571f8"),
   ("file:io/sources.py", "7c2b0cb2619a6b10"),
   ("file:io/text.py", "b72fac07748bae66"),
-  ("file:transform/basics.py", "ef1ded632cafe787"),
+  ("file:transform/basics.py", "093d71f68c43a00a"),
   ("file:transform/conversions.py", "c717da0d8eb0ba94"),
   ("file:transform/dedup.py", "bd5f47cbc6d0c73d"),
   ("file:transform/fills.py", "dd9addc453365c1c"),
@@ -27,7 +27,7 @@ def expectedC02 : List (String × String) := [
   ("file:transform/headers.py", "b170f0cc5a1c0354"),
   ("file:transform/joins.py", "bb9e0069e4d5e3a6"),
   ("file:transform/maps.py", "e13eb9e40cc9aa94"),
-  ("file:transform/reductions.py", "edf72039afd74a8e"),
+  ("file:transform/reductions.py", "bbf60b10e10110b8"),
   ("file:transform/regex.py", "7acd499a0489265c"),
   ("file:transform/reshape.py", "b1f08e12c952f763"),
   ("file:transform/selects.py", "f935e8905e1e021c"),
